@@ -41,8 +41,28 @@ constexpr unsigned kJitter = 2;  // SetFaultSleepTime(kJitter): SleepPreemptive 
 std::uint64_t Now() { return yaclib::fault::Scheduler::GetScheduler()->GetTimeNs(); }
 std::string At() { return " @" + std::to_string(Now()); }
 
+// the `_until` forms take their deadline from one of the three yaclib_std::chrono clocks, selected by the last digit of the
+// op's argument (0 steady_clock, 1 system_clock, 2 high_resolution_clock); the rest of the argument is the duration
+const char* ClockName(int c) { return c == 0 ? "steady_clock" : (c == 1 ? "system_clock" : "high_resolution_clock"); }
+template <typename F>
+auto WithClock(int c, F&& f) {
+  if (c == 0) return f(yaclib_std::chrono::steady_clock{});
+  if (c == 1) return f(yaclib_std::chrono::system_clock{});
+  return f(yaclib_std::chrono::high_resolution_clock{});
+}
+// runs `wait(deadline)` with deadline = Clock::now() + d and tells whether, by the SAME clock, it returned before the deadline
+template <typename Wait>
+std::pair<bool, bool> UntilBy(int c, long d, Wait&& wait) {
+  return WithClock(c, [&](auto clock) {
+    using C = decltype(clock);
+    auto dl = C::now() + ns{d};
+    bool r = wait(dl);
+    return std::pair<bool, bool>{r, C::now() < dl};
+  });
+}
+
 struct Op {
-  std::string k;  // L T U F FU | LS TS US FS | W WF WU WP WPF SF N1 NA | S | J E | VS VG VC (thread-local)
+  std::string k;  // L T U F FU | LS TS US FS FSU | W WF WU WP WPF WQ WQF WQU SF N1 NA | S SU | J E | VS VG VC (thread-local)
   long a = 0;
 };
 
@@ -57,9 +77,8 @@ struct Scenario {
       if (progs[i].empty()) h += "-";
       for (std::size_t j = 0; j < progs[i].size(); ++j) {
         h += (j ? "," : "") + progs[i][j].k;
-        if (progs[i][j].a != 0 || progs[i][j].k == "F" || progs[i][j].k == "FS" || progs[i][j].k == "FU" ||
-            progs[i][j].k == "S" || progs[i][j].k == "WF" || progs[i][j].k == "WU" || progs[i][j].k == "WPF" || progs[i][j].k == "J" ||
-            progs[i][j].k == "VS" || progs[i][j].k == "VC")
+        static const std::set<std::string> kWithArg = {"F", "FS", "FU", "FSU", "S", "SU", "WF", "WU", "WPF", "WQF", "WQU", "J", "VS", "VC"};
+        if (progs[i][j].a != 0 || kWithArg.count(progs[i][j].k) != 0)
           h += std::to_string(progs[i][j].a);
       }
     }
@@ -287,15 +306,27 @@ void ExecLockOp(M& m, Env& env, int i, const Op& op) {
   } else if (k == "F" || k == "FU") {
     if constexpr (kTimed) {
       auto t0 = Now();
-      Call("try_lock_for " + std::to_string(op.a));
+      long d = k == "F" ? op.a : op.a - op.a % 10;
+      int c = static_cast<int>(op.a % 10);
+      bool avail = mon.Compatible(i, false);
+      Call("try_lock_for " + std::to_string(d));
       mon.in_op[i] = 'X';
-      bool r = k == "F" ? m.try_lock_for(ns{op.a}) : m.try_lock_until(Clock::now() + ns{op.a});
+      bool r, early = false;
+      if (k == "F") {
+        r = m.try_lock_for(ns{d});
+      } else {
+        std::tie(r, early) = UntilBy(c, d, [&](auto dl) { return m.try_lock_until(dl); });
+      }
       mon.in_op[i] = 0;
+      const std::string name = k == "F" ? "try_lock_for" : std::string("try_lock_until(") + ClockName(c) + ")";
       if (r) {
         mon.Acquired(i, false, "try_lock_for");
-      } else if (Now() < t0 + static_cast<std::uint64_t>(op.a)) {
-        mon.Bad("timed_early", "try_lock_for(" + std::to_string(op.a) + ") returned false at " + std::to_string(Now()) +
-                                 " < deadline " + std::to_string(t0 + op.a));
+      } else {
+        if (Now() < t0 + static_cast<std::uint64_t>(d) || early) {
+          mon.Bad("timed_early", name + " with duration " + std::to_string(d) + " returned false before its deadline (virtual " +
+                                   std::to_string(Now()) + " vs " + std::to_string(t0 + d) + (early ? ", and by its own clock" : "") + ")");
+        }
+        if (avail) mon.Bad("try_spurious", name + " returned false although the lock was free when it was called");
       }
       Ret(std::string("try_lock_for ") + (r ? "1" : "0"));
     }
@@ -330,17 +361,29 @@ void ExecLockOp(M& m, Env& env, int i, const Op& op) {
       m.unlock_shared();
       Ret("unlock_shared");
     }
-  } else if (k == "FS") {
+  } else if (k == "FS" || k == "FSU") {
     if constexpr (kSharedTimed) {
       auto t0 = Now();
-      Call("try_lock_shared_for " + std::to_string(op.a));
+      long d = k == "FS" ? op.a : op.a - op.a % 10;
+      int c = static_cast<int>(op.a % 10);
+      bool avail = mon.Compatible(i, true);
+      Call("try_lock_shared_for " + std::to_string(d));
       mon.in_op[i] = 'S';
-      bool r = m.try_lock_shared_for(ns{op.a});
+      bool r, early = false;
+      if (k == "FS") {
+        r = m.try_lock_shared_for(ns{d});
+      } else {
+        std::tie(r, early) = UntilBy(c, d, [&](auto dl) { return m.try_lock_shared_until(dl); });
+      }
       mon.in_op[i] = 0;
+      const std::string name = k == "FS" ? "try_lock_shared_for" : std::string("try_lock_shared_until(") + ClockName(c) + ")";
       if (r) {
         mon.Acquired(i, true, "try_lock_shared_for");
-      } else if (Now() < t0 + static_cast<std::uint64_t>(op.a)) {
-        mon.Bad("timed_early", "try_lock_shared_for returned false before its deadline");
+      } else {
+        if (Now() < t0 + static_cast<std::uint64_t>(d) || early) {
+          mon.Bad("timed_early", name + " returned false before its deadline" + (early ? " (by its own clock)" : ""));
+        }
+        if (avail) mon.Bad("try_spurious", name + " returned false although no exclusive holder existed when it was called");
       }
       Ret(std::string("try_lock_shared_for ") + (r ? "1" : "0"));
     }
@@ -350,14 +393,23 @@ void ExecLockOp(M& m, Env& env, int i, const Op& op) {
 void ExecCommon(Env& env, int i, const Op& op) {
   auto& mon = gMon;
   const std::string& k = op.k;
-  if (k == "S") {
+  if (k == "S" || k == "SU") {
     auto t0 = Now();
-    Call("sleep " + std::to_string(op.a));
+    long d = k == "S" ? op.a : op.a - op.a % 10;
+    int c = static_cast<int>(op.a % 10);
+    Call("sleep " + std::to_string(d));
     mon.in_op[i] = 'Z';
-    yaclib_std::this_thread::sleep_for(ns{op.a});
+    bool early = false;
+    if (k == "S") {
+      yaclib_std::this_thread::sleep_for(ns{d});
+    } else {
+      early = UntilBy(c, d, [&](auto dl) { yaclib_std::this_thread::sleep_until(dl); return true; }).second;
+    }
     mon.in_op[i] = 0;
-    if (Now() < t0 + static_cast<std::uint64_t>(op.a)) {
-      mon.Bad("timed_early", "sleep_for(" + std::to_string(op.a) + ") returned early");
+    if (Now() < t0 + static_cast<std::uint64_t>(d) || early) {
+      mon.Bad("timed_early", std::string(k == "S" ? "sleep_for" : "sleep_until(") + (k == "S" ? "" : ClockName(c)) +
+                               (k == "S" ? "" : ")") + " with duration " + std::to_string(d) + " returned before its deadline" +
+                               (early ? " (by its own clock)" : ""));
     }
     Ret("sleep");
   } else if (k == "J") {
@@ -411,38 +463,59 @@ void ExecCvOp(Env& env, int i, const Op& op) {
     for (int j = 0; j < kMaxF; ++j)
       if (mon.in_op[j] == 'W') mon.got_notify[j] = true;
   };
-  auto one_wait = [&](bool timed, long d, bool until = false) -> bool {  // returns true if it ended by timeout
+  // form: 0 wait, 1 wait_for, 2 wait_until (clock c); pred: the library's predicate overload (loops inside the library).
+  // returns true if it ended by timeout (predicate forms: if the predicate was still false)
+  auto one_wait = [&](int form, long d, int c = 0, bool pred = false) -> bool {
     auto t0 = Now();
-    Call(timed ? "wait_for " + std::to_string(d) : std::string("wait"));
+    Call(form == 0 ? std::string("wait") : (form == 1 ? "wait_for " : "wait_until ") + std::to_string(d));
     mon.holdX[i]--;
     mon.in_op[i] = 'W';
     mon.got_notify[i] = false;
     std::unique_lock<yaclib_std::mutex> lk{m, std::adopt_lock};
-    bool timeout = false;
-    if (timed) {
-      timeout = (until ? cv.wait_until(lk, Clock::now() + ns{d}) : cv.wait_for(lk, ns{d})) == std::cv_status::timeout;
+    bool timeout = false, early = false;
+    auto flag = [&] { return env.flag; };
+    if (form == 0) {
+      if (pred) {
+        cv.wait(lk, flag);
+      } else {
+        cv.wait(lk);
+      }
+    } else if (form == 1) {
+      timeout = pred ? !cv.wait_for(lk, ns{d}, flag) : cv.wait_for(lk, ns{d}) == std::cv_status::timeout;
     } else {
-      cv.wait(lk);
+      std::tie(timeout, early) = UntilBy(c, d, [&](auto dl) {
+        return pred ? !cv.wait_until(lk, dl, flag) : cv.wait_until(lk, dl) == std::cv_status::timeout;
+      });
+      early = early && timeout;
     }
     lk.release();
     mon.in_op[i] = 0;
     mon.Acquired(i, false, "cv wait (re-lock)");
+    const std::string name = std::string(form == 0 ? "wait" : (form == 1 ? "wait_for" : "wait_until(")) +
+                             (form == 2 ? std::string(ClockName(c)) + ")" : "") + (pred ? " with predicate" : "");
     if (timeout) {
-      if (Now() < t0 + static_cast<std::uint64_t>(d)) {
-        mon.Bad("timed_early", "wait_for(" + std::to_string(d) + ") reported timeout before its deadline");
+      if (Now() < t0 + static_cast<std::uint64_t>(d) || early) {
+        mon.Bad("timed_early", name + " with duration " + std::to_string(d) + " reported timeout before its deadline" +
+                                 (early ? " (by its own clock)" : ""));
       }
+      if (pred && env.flag) mon.Bad("cv_pred", name + " returned false although the predicate is true");
+    } else if (pred) {
+      if (!env.flag) mon.Bad("cv_pred", name + " returned (true) although the predicate is false");
     } else if (!mon.got_notify[i]) {
       mon.Bad("cv_spurious", "cv wait returned without timeout although no notify was issued while it was blocked");
     }
-    Ret(std::string(timed ? "wait_for " : "wait ") + (timeout ? "timeout" : "notified"));
+    Ret(std::string(pred ? "wait_pred " : (form == 0 ? "wait " : "wait_for ")) + (timeout ? "timeout" : "notified"));
     return timeout;
   };
-  if (k == "W" || k == "WF" || k == "WU") {
+  if (k == "W" || k == "WF" || k == "WU" || k == "WQ" || k == "WQF" || k == "WQU") {
     if (mon.holdX[i] == 0) {
       vx::Ev("skip wait");
       return;
     }
-    one_wait(k != "W", op.a, k == "WU");
+    bool pred = k[1] == 'Q';
+    bool until = k.back() == 'U';
+    int form = (k == "W" || k == "WQ") ? 0 : (until ? 2 : 1);
+    one_wait(form, until ? op.a - op.a % 10 : op.a, until ? static_cast<int>(op.a % 10) : 0, pred);
   } else if (k == "WP" || k == "WPF") {
     // while (!flag) wait: the canonical predicate loop, spelled out so that every wait is a separate op in the trace
     if (mon.holdX[i] == 0) {
@@ -450,7 +523,7 @@ void ExecCvOp(Env& env, int i, const Op& op) {
       return;
     }
     while (!env.flag) {
-      if (one_wait(k == "WPF", op.a)) break;
+      if (one_wait(k == "WPF" ? 1 : 0, op.a)) break;
       Point();
     }
   } else if (k == "SF") {
@@ -484,9 +557,10 @@ void RunWith(const Scenario& sc, M* m, Env& env) {
       int fi = static_cast<int>(i);
       for (auto& op : sc.progs[i]) {
         const std::string& k = op.k;
-        if (k == "S" || k == "J" || k == "E" || k == "VS" || k == "VG" || k == "VC") {
+        if (k == "S" || k == "SU" || k == "J" || k == "E" || k == "VS" || k == "VG" || k == "VC") {
           ExecCommon(env, fi, op);
-        } else if (k == "W" || k == "WF" || k == "WU" || k == "WP" || k == "WPF" || k == "SF" || k == "N1" || k == "NA") {
+        } else if (k == "W" || k == "WF" || k == "WU" || k == "WP" || k == "WPF" || k == "WQ" || k == "WQF" || k == "WQU" || k == "SF" ||
+                   k == "N1" || k == "NA") {
           ExecCvOp(env, fi, op);
         } else if constexpr (!std::is_same_v<M, void>) {
           ExecLockOp(*m, env, fi, op);
@@ -609,6 +683,8 @@ std::vector<Scenario> Scenarios(std::uint64_t seed, int random_count) {
   add("timed", {"L,U", "F0,U"});
   add("timed", {"F40,U", "F40,U", "T,U"});
   add("timed", {"L,U", "FU50,U", "T,U"});
+  add("timed", {"L,S30,U", "FU21,U", "FU52,U"});
+  add("timed", {"L,S40,U", "FU10000002,U"});
   // ---- RecursiveMutex / RecursiveTimedMutex (regression: D4 unlock never notified, fixed 4d75ee5)
   add("rec", {"L,L,U,U", "L,U"});
   add("rec", {"L,T,U,U", "T,U"});
@@ -617,6 +693,7 @@ std::vector<Scenario> Scenarios(std::uint64_t seed, int random_count) {
   add("rect", {"L,U", "F30,U", "T,U"});
   add("rect", {"L,S100,U", "F20,F200,U,U"});
   add("rect", {"F0,U", "L,U"});
+  add("rect", {"L,S30,U", "FU21,U", "FU52,FU12,U,U"});
   // ---- SharedMutex (regressions: D6, D7, fixed 5d29c51)
   add("shared", {"L,U", "LS,US"});
   add("shared", {"LS,US", "LS,US", "L,U"});
@@ -632,6 +709,12 @@ std::vector<Scenario> Scenarios(std::uint64_t seed, int random_count) {
   add("sharedt", {"L,S30,U", "FS10,US", "FS60,US"});
   add("sharedt", {"L,U", "FS50,US", "FS50,US", "L,U"});
   add("sharedt", {"L,S30,U", "F10,U"});
+  // every timed member, every clock: try_lock_until / try_lock_shared_until on a free lock, next to readers, under a writer
+  add("sharedt", {"FSU50,US", "LS,US", "TS,US"});
+  add("sharedt", {"LS,S30,US", "FSU21,US", "FSU52,US"});
+  add("sharedt", {"L,S30,U", "FSU21,US", "FSU62,US", "FU52,U"});
+  add("sharedt", {"FU51,U", "FSU32,US", "T,U"});
+  add("sharedt", {"L,S40,U", "FSU10000002,US", "FU10000002,U"});
   // an exclusive holder, a reader parked in lock_shared, a writer parked in try_lock_for, and a third-party reader that
   // takes shared mode in the unlock window and holds past the writer's deadline: everybody must still get in
   add("sharedt", {"L,U", "LS,US", "F40,U", "LS,S100,US"});
@@ -648,12 +731,23 @@ std::vector<Scenario> Scenarios(std::uint64_t seed, int random_count) {
   add("cv", {"L,WF0,U", "N1"});
   add("cv", {"L,WU30,U", "L,N1,U"});
   add("cv", {"L,WU0,U", "N1"});
+  // the library's predicate overloads, and deadlines from each of the three clocks
+  add("cv", {"L,WQ,U", "L,SF,N1,U"});
+  add("cv", {"L,WQ,U", "L,N1,U,L,SF,NA,U"});
+  add("cv", {"L,WQF30,U", "L,N1,U", "S10,L,SF,N1,U"});
+  add("cv", {"L,WQF20,U", "L,N1,U"});
+  add("cv", {"L,WQU41,U", "L,N1,U", "L,SF,N1,U"});
+  add("cv", {"L,WQU22,U", "L,N1,U"});
+  add("cv", {"L,WU31,U", "L,N1,U"});
+  add("cv", {"L,WU20000002,U", "L,WU32,U", "S10,N1"});
   add("cv", {"L,WPF50,U", "L,T,U", "L,SF,NA,U"});
   // ---- thread / sleep
   add("thread", {"E,J1,E", "E,S20,E"});
   add("thread", {"J1,E", "J2,E", "S10,E"});
   add("thread", {"S10,E", "S10,E", "S5,S5,E"});
   add("thread", {"S0,E", "E"});
+  add("thread", {"SU20,E", "SU21,E", "SU22,E"});
+  add("thread", {"SU10000002,E", "S10,E"});
   // ---- thread-local pointers: VS<var><val> (val 9 = nullptr), VG<var>, VC<dst><src>; variables: 0 p, 1 q, 2 long*, 3 n,
   //      4 i = &slot[7], 5 j = &slot[6]
   add("tls", {"VG0,VS1,VG0,E,VG0", "VG0,VS2,VG0,E,VG0"});
